@@ -102,37 +102,3 @@ fn c17_flow_poison() {
     kani::cover!(sent_data < max_data, "had credit left");
     core::mem::forget(ctl);
 }
-
-/// A Credit handed out before the error and dropped after it: returning the unused part is a
-/// no-op on the dead controller (no panic, nothing revived).
-#[kani::proof]
-#[kani::unwind(4)]
-#[kani::stub(crate::net::tx::ArcSendWakers::wake_all_by, stub_wake_all_by)]
-#[kani::stub(alloc::fmt::format, stub_fmt)]
-fn c17_flow_credit_outstanding() {
-    let sent_data: u64 = kani::any();
-    let max_data: u64 = kani::any();
-    kani::assume(sent_data <= max_data && max_data <= VMAX);
-    let ctl = ArcSendControler(Arc::new(Mutex::new(Ok(SendControler {
-        sent_data,
-        max_data,
-        flow_limited: true,
-        broker: Sink,
-        tx_wakers: ArcSendWakers::default(),
-    }))));
-    let k1 = any_kind();
-    {
-        let mut credit = match ctl.credit(kani::any()) {
-            Ok(c) => c,
-            Err(_) => panic!("live controller hands out credit"),
-        };
-        ctl.on_error(&conn_error(k1));
-        let used: usize = kani::any();
-        kani::assume(used <= credit.available());
-        credit.post_sent(used);
-    }
-    assert!(err_kind(ctl.credit(1)) == Some(k1), "dropping an old Credit does not revive the controller");
-    assert!(unsafe { WAKE_N } == 0);
-    kani::cover!(sent_data < max_data, "credit was outstanding while the connection failed");
-    core::mem::forget(ctl);
-}
